@@ -1,12 +1,161 @@
 """
 C03 — Conditioning factorises the joint, P(c)P(r|c)=P(c,r), and factors recombine.
+
+Three case families: (i) the structured 2..4-variable distributions of gen.rand_dist_case, (ii) the same shapes with
+heterogeneous alphabets (klass 'hetero': every variable has its own kind of symbols, see COLS), both compared with the
+Lean model and judged by the oracle, (iii) wide distributions of 9..11 binary variables (family 'wide'), judged by the
+oracle alone.  In every case the factors are used twice: after joint_from_factors they are observed again (unchanged,
+still a factorisation of the joint) and recombined a second time.  All expected numbers are fibre sums of the table
+read from the source distribution (which is compared with the specified table first).
 """
+import json
 from fractions import Fraction
 
 import core
 import gen
 from canon import exc_enum
 from env import import_dit
+
+# Per-variable symbol universes of the 'hetero' outcome class: tuple outcomes whose variables take values of
+# different kinds (counts, signed numbers, floats, labels, numerals written as text).  Every universe is increasing
+# under Python's order, so - as for gen.UNIVERSE - the order on ranks *is* the order on the symbols of that variable;
+# symbols of different variables are never compared with each other (tuples are compared position by position).
+# In several numeric universes the order of the numbers differs from the order of their decimal text.
+COLS = {
+    'digit': [0, 1, 2, 3, 4, 5, 6, 7, 8, 9],
+    'count': [2, 10, 30, 100, 200, 1000],
+    'signed': [-20, -3, -1, 0, 2, 10],
+    'float': [0.5, 2.0, 10.0, 25.0, 100.0, 1000.0],
+    'numix': [-2, -0.5, 1, 2.5, 10, 30.0],              # ints and floats in one alphabet
+    'label': ['a', 'b', 'c', 'dd', 'e', 'f'],
+    'word': ['hi', 'lo', 'mid', 'no', 'yes', 'zz'],
+    'numeral': ['-1', '10', '100', '2', '30', '5'],     # text that looks like numbers, in text order
+}
+NUMERIC_COLS = ('digit', 'count', 'signed', 'float', 'numix')
+WIDE_NAMES = ['ABCDEFGHIJK', 'KJIHGFEDCBA', 'QAZWSXEDCRF']
+
+
+def unis_of(case, positions=None):
+    """The symbol universe of each variable (of the listed positions)."""
+    if case['klass'] == 'hetero':
+        u = [COLS[k] for k in case['cols']]
+    else:
+        u = [gen.UNIVERSE[case['klass']]] * case['n']
+    return u if positions is None else [u[i] for i in positions]
+
+
+def build_dist(case):
+    """gen.build, with per-variable universes for the 'hetero' class."""
+    if case['klass'] != 'hetero':
+        return gen.build(case)
+    dit = import_dit()
+    unis = unis_of(case)
+    conv = lambda o: tuple(u[r] for u, r in zip(unis, o))
+    sp = case.get('space')
+    if sp is None:
+        space = None
+    elif sp[0] == 'list':
+        space = [conv(o) for o in sp[1]]
+    elif sp[0] == 'ss':
+        space = dit.samplespace.SampleSpace([conv(o) for o in sp[1]])
+    elif sp[0] == 'cart':
+        from dit.helpers import get_product_func
+        space = dit.samplespace.CartesianProduct([[u[r] for r in a] for u, a in zip(unis, sp[1])],
+                                                 get_product_func(tuple))
+    else:
+        raise ValueError(sp)
+    d = dit.Distribution([conv(o) for o in case['outs']], [gen.log_of(Fraction(p), case['base']) for p in case['pmf']],
+                         sample_space=space, base=case['base'], sparse=case['sparse'], trim=case['trim'], validate=True)
+    if case.get('names'):
+        d.set_rv_names(case['names'])
+    return d
+
+
+def obs_dist(dd, case, positions, scalar=False):
+    """Observable record (rank space) of a real distribution over the variables `positions` of the case."""
+    klass = case['klass']
+    if klass != 'hetero' and not scalar:
+        return gen.obs_py(dd, klass)
+    invs = [{s: i for i, s in enumerate(u)} for u in unis_of(case, positions)]
+
+    def conv(o):
+        if scalar:
+            o = (o,)
+        try:
+            if len(o) != len(invs):
+                raise KeyError(o)
+            return [inv[s] for inv, s in zip(invs, o)]
+        except (KeyError, TypeError):
+            raise gen.UnreadableOutcome('%r is not an outcome over the symbols of variables %s' % (o, list(positions)))
+    if scalar:
+        alph = [sorted(invs[0][s] for s in dd.alphabet)]
+    else:
+        alph = [sorted(inv[s] for s in a) for inv, a in zip(invs, dd.alphabet)]
+    rec = {'space': [conv(o) for o in dd.sample_space()], 'alphabets': alph,
+           'tab': [[conv(o), float(v)] for o, v in zip(dd.outcomes, dd.pmf)], 'sparse': bool(dd.is_sparse()),
+           'base': dd.get_base(), 'lookups': [float(dd[o]) for o in dd.sample_space()]}
+    if not scalar:
+        rec['len'] = len(dd)
+        rec['outcome_length'] = dd.outcome_length()
+    return rec
+
+
+def same_obs(a, b):
+    return json.dumps(a, sort_keys=True, default=str) == json.dumps(b, sort_keys=True, default=str)
+
+
+def hetero_case(rng):
+    """A joint distribution whose variables take symbols of different kinds."""
+    c = gen.rand_dist_case(rng, nmin=2, nmax=4, klasses=('tuple',))
+    c['klass'] = 'hetero'
+    kinds = sorted(COLS)
+    cols = [rng.choice(kinds) for _ in range(c['n'])]
+    if rng.random() < 0.6:
+        # at least one textual and one numeric variable
+        i, j = rng.sample(range(c['n']), 2)
+        cols[i] = rng.choice(['label', 'word', 'numeral'])
+        cols[j] = rng.choice(NUMERIC_COLS)
+    c['cols'] = cols
+    return c
+
+
+def wide_case(rng):
+    """9..11 binary variables, 6..40 stored outcomes (the model and the main family stop at 4 variables)."""
+    n = rng.randint(9, 11)
+    klass = rng.choice(['str', 'str2', 'tuple', 'tuple2', 'mixed'])
+    a = sorted(rng.sample(range(6), 2))
+    k = rng.randint(6, 40)
+    support = [[a[(x >> i) & 1] for i in range(n)] for x in rng.sample(range(2 ** n), k)]
+    pmf, style = gen.rand_prob_vector(rng, k)
+    names = list(rng.choice(WIDE_NAMES))[:n] if rng.random() < 0.4 else None
+    c = {'family': 'wide', 'klass': klass, 'n': n, 'alphabets': [list(a) for _ in range(n)], 'outs': support,
+         'pmf': [str(p) for p in pmf], 'space': None, 'base': rng.choice(gen.BASES), 'sparse': rng.random() < 0.7,
+         'trim': rng.random() < 0.6, 'names': names, 'style': style, 'spacekind': 'none'}
+    shape = rng.choice(['prefix', 'prefix', 'few', 'few', 'random'])
+    if shape == 'prefix':
+        # condition on the first m variables, 1..4 remain
+        crvs = list(range(rng.randint(n - 4, n - 1)))
+    elif shape == 'few':
+        # at most four variables take part, one of them among the last ones
+        union = set(rng.sample(range(n), rng.randint(2, 4)))
+        if rng.random() < 0.8 and max(union) < 8:
+            union.discard(rng.choice(sorted(union)))
+            union.add(rng.randint(8, n - 1))
+            while len(union) < 2:
+                union.add(rng.randrange(8))
+        union = sorted(union)
+        crvs = sorted(rng.sample(union, rng.randint(1, len(union) - 1)))
+        c['_few'] = [i for i in union if i not in crvs]
+    else:
+        crvs = sorted(rng.sample(range(n), rng.randint(1, n - 1)))
+    rest = [i for i in range(n) if i not in crvs]
+    if shape == 'few':
+        rvs = c.pop('_few')
+    elif rng.random() < 0.5:
+        rvs = None
+    else:
+        rvs = sorted(rng.sample(rest, rng.randint(1, min(4, len(rest)))))
+    return c, crvs, rvs, shape
 
 
 class C03(object):
@@ -15,7 +164,11 @@ class C03(object):
             "different supports, 6 bases, names, custom spaces) x disjoint (crvs, rvs) with rvs possibly None, dropped "
             "variables, interleaved positions, extract with singletons; condition_on then joint_from_factors; "
             "non-trivial = at least two conditioning outcomes of positive probability and a conditional with >= 2 "
-            "outcomes")
+            "outcomes; + tuple outcomes whose variables take symbols of different kinds (counts, signed numbers, "
+            "floats, labels, numerals as text; numeric order != text order); + wide distributions of 9..11 binary "
+            "variables (prefix / few-variable / random selections, oracle only); every case: the factors are used "
+            "again after joint_from_factors (unchanged, still a factorisation, second recombination reproduces the "
+            "joint)")
     tolerances = {'values': 'rtol 1e-9 in the linear domain (a division is involved)'}
     exhaustive = {}
 
@@ -43,6 +196,30 @@ class C03(object):
             c['rvs'] = rvs
             c['byname'] = bool(c['names']) and rng.random() < 0.5
             c['extract'] = rng.random() < 0.3
+            yield c
+        # heterogeneous alphabets: each variable has its own kind of symbols
+        for _ in range(90 if tier == 'quick' else 9000):
+            c = hetero_case(rng)
+            n = c['n']
+            crvs = rng.sample(range(n), rng.randint(1, n - 1))
+            rest = [i for i in range(n) if i not in crvs]
+            rvs = None if rng.random() < 0.4 else rng.sample(rest, rng.randint(1, len(rest)))
+            c['crvs'] = crvs
+            c['rvs'] = rvs
+            c['byname'] = bool(c['names']) and rng.random() < 0.5
+            c['extract'] = rng.random() < 0.2
+            yield c
+        # wide distributions (judged by the oracle alone)
+        for _ in range(40 if tier == 'quick' else 1500):
+            c, crvs, rvs, shape = wide_case(rng)
+            rng.shuffle(crvs)
+            if rvs is not None:
+                rng.shuffle(rvs)
+            c['crvs'] = crvs
+            c['rvs'] = rvs
+            c['shape'] = shape
+            c['byname'] = bool(c['names']) and rng.random() < 0.5
+            c['extract'] = rng.random() < 0.15
             yield c
 
     def shrink(self, case):
@@ -81,12 +258,33 @@ class C03(object):
         r.features = gen.case_features(case) + ['rvsNone=%s' % (rvs is None), 'byname=%s' % case['byname'],
                                                 'extract=%s' % case['extract'], 'dropped=%d' % (n - len(crvs) - len(idx))]
         base = case['base']
-        d = gen.build(case)
-        mj = drv.call('construct', gen.model_construct_args(case))
-        src = gen.obs_py(d, klass)
-        if mj[0] != 'ok' or gen.compare_obs(src, gen.obs_model(mj[1])) is not None:
-            r.features.append('construct-disagree')
-            return r
+        wide = case.get('family') == 'wide'
+        if klass == 'hetero':
+            kinds = case['cols']
+            used = sorted(crvs + idx)
+            r.features += ['cols=%s' % '+'.join(sorted(set(kinds))),
+                           'text-and-number-used=%s' % (any(kinds[i] in NUMERIC_COLS for i in used)
+                                                        and any(kinds[i] not in NUMERIC_COLS for i in used))]
+        if wide:
+            r.features += ['family=wide', 'shape=%s' % case.get('shape'), 'kept=%d' % len(idx)]
+        d = build_dist(case)
+        src = obs_dist(d, case, range(n))
+        if wide:
+            # no model for this width: the table read back must be the specified one (C01's statement)
+            spec = {}
+            for o, p in zip(case['outs'], case['pmf']):
+                spec[tuple(o)] = spec.get(tuple(o), 0) + Fraction(p)
+            if any(not gen.value_agrees(v, spec.get(tuple(o), 0), base, atol=1e-8)
+                   for o, v in zip(src['space'], src['lookups'])) or \
+                    not set(spec) <= set(tuple(o) for o in src['space']):
+                r.features.append('construct-disagree')
+                return r
+            mj = None
+        else:
+            mj = drv.call('construct', gen.model_construct_args(case))
+            if mj[0] != 'ok' or gen.compare_obs(src, gen.obs_model(mj[1])) is not None:
+                r.features.append('construct-disagree')
+                return r
 
         def nm(ix):
             return [names[i] for i in ix] if case['byname'] else list(ix)
@@ -97,42 +295,37 @@ class C03(object):
         except Exception as e:  # noqa
             r.oracle_fail = 'condition_on raised %s: %s' % (type(e).__name__, str(e)[:150])
             return r
-        if gen.obs_py(d, klass) != src:
+        if obs_dist(d, case, range(n)) != src:
             r.oracle_fail = 'condition_on changed the source distribution'
             return r
         scal_c = case['extract'] and len(crvs) == 1
         scal_r = case['extract'] and len(idx) == 1
 
-        def obs(dd, scalar):
-            if not scalar:
-                return gen.obs_py(dd, klass)
-            u = gen.UNIVERSE[klass]
-            inv = {s: i for i, s in enumerate(u)}
-            return {'space': [[inv[o]] for o in dd.sample_space()], 'alphabets': [sorted(inv[s] for s in dd.alphabet)],
-                    'tab': [[[inv[o]], float(v)] for o, v in zip(dd.outcomes, dd.pmf)], 'sparse': bool(dd.is_sparse()),
-                    'base': dd.get_base(), 'lookups': [float(dd[o]) for o in dd.sample_space()]}
-        oc = obs(cdist, scal_c)
-        ocs = [obs(x, scal_r) for x in conds]
-
-        # ---------------- model
-        mo = drv.call('condition', [mj[2], crvs, idx])
-        mc = gen.obs_model(mo[0])
-        mcs = [gen.obs_model(x) for x in mo[1]]
+        oc = obs_dist(cdist, case, crvs, scal_c)
+        ocs = [obs_dist(x, case, idx, scal_r) for x in conds]
         pos_c = [o for o, v in oc['tab'] if gen.lin_of(v, base) > 0]
         r.nontrivial = len(pos_c) >= 2 and any(len(x['tab']) >= 2 for x in ocs)
 
-        diff = gen.compare_obs(oc, mc, check_alphabets=not scal_c)
-        if diff:
-            r.mismatch = 'marginal on the conditioning variables: ' + diff
-        elif len(ocs) != len(mcs):
-            r.mismatch = 'number of conditionals: impl %d model %d' % (len(ocs), len(mcs))
-        else:
-            for i, (a, b) in enumerate(zip(ocs, mcs)):
-                diff = gen.compare_obs(a, b, check_alphabets=not scal_r)
-                if diff:
-                    r.mismatch = 'conditional #%d: %s' % (i, diff)
-                    break
-        r.detail = {'impl_cdist': oc, 'model_cdist': mo[0], 'n_conds': len(ocs)}
+        # ---------------- model
+        mo = None
+        if not wide:
+            mo = drv.call('condition', [mj[2], crvs, idx])
+            mc = gen.obs_model(mo[0])
+            mcs = [gen.obs_model(x) for x in mo[1]]
+
+            diff = gen.compare_obs(oc, mc, check_alphabets=not scal_c)
+            if diff:
+                r.mismatch = 'marginal on the conditioning variables: ' + diff
+            elif len(ocs) != len(mcs):
+                r.mismatch = 'number of conditionals: impl %d model %d' % (len(ocs), len(mcs))
+            else:
+                for i, (a, b) in enumerate(zip(ocs, mcs)):
+                    diff = gen.compare_obs(a, b, check_alphabets=not scal_r)
+                    if diff:
+                        r.mismatch = 'conditional #%d: %s' % (i, diff)
+                        break
+        r.detail = {'impl_cdist': oc if not wide else oc['tab'], 'model_cdist': mo[0] if mo else None,
+                    'n_conds': len(ocs)}
 
         # ---------------- oracle
         lin = lambda v: gen.lin_of(v, base)
@@ -145,29 +338,47 @@ class C03(object):
             x = tuple(o[i] for i in idx)
             joint[(c, x)] = joint.get((c, x), 0.0) + p
             marg[c] = marg.get(c, 0.0) + p
-        stored_c = [tuple(o) for o, _ in oc['tab']]
-        want_c = [c for c in [tuple(o) for o in oc['space']] if marg.get(c, 0.0) > (1e-8 if base == 'linear' else 0.0)]
-        if stored_c != want_c:
-            fails = 'conditioning outcomes listed %s, positive-probability ones in order are %s' % (stored_c, want_c)
-        elif len(conds) != len(stored_c):
-            fails = '%d conditionals for %d conditioning outcomes' % (len(conds), len(stored_c))
-        else:
-            for c, (_, pc), cd in zip(stored_c, oc['tab'], ocs):
-                pc = lin(pc)
-                tot = 0.0
-                for x, v in zip(cd['space'], cd['lookups']):
-                    pr = lin(v)
-                    tot += pr
-                    wantj = joint.get((c, tuple(x)), 0.0)
-                    if abs(pc * pr - wantj) > 1e-9:
-                        fails = 'P(c=%s)P(r=%s|c) = %r but P(c,r) = %r' % (list(c), x, pc * pr, wantj)
+
+        def check_factors(oc, ocs, n_conds):
+            """The statement about the factors, on their observable records (first failing clause or None)."""
+            fails = None
+            stored_c = [tuple(o) for o, _ in oc['tab']]
+            want_c = [c for c in [tuple(o) for o in oc['space']] if marg.get(c, 0.0) > (1e-8 if base == 'linear' else 0.0)]
+            if stored_c != want_c:
+                fails = 'conditioning outcomes listed %s, positive-probability ones in order are %s' % (stored_c, want_c)
+            elif n_conds != len(stored_c):
+                fails = '%d conditionals for %d conditioning outcomes' % (n_conds, len(stored_c))
+            else:
+                for c, (_, pc), cd in zip(stored_c, oc['tab'], ocs):
+                    pc = lin(pc)
+                    if abs(pc - marg.get(c, 0.0)) > 1e-9:
+                        fails = 'P(c=%s) = %r but the fibre sum is %r' % (list(c), pc, marg.get(c, 0.0))
                         break
-                if not fails and abs(tot - 1) > 1e-9:
-                    fails = 'conditional given %s sums to %r' % (list(c), tot)
-                if not fails and cd['base'] != base:
-                    fails = 'conditional has base %r' % (cd['base'],)
-                if fails:
-                    break
+                    tot = 0.0
+                    for x, v in zip(cd['space'], cd['lookups']):
+                        pr = lin(v)
+                        tot += pr
+                        wantj = joint.get((c, tuple(x)), 0.0)
+                        if abs(pc * pr - wantj) > 1e-9:
+                            fails = 'P(c=%s)P(r=%s|c) = %r but P(c,r) = %r' % (list(c), x, pc * pr, wantj)
+                            break
+                    if not fails and abs(tot - 1) > 1e-9:
+                        fails = 'conditional given %s sums to %r' % (list(c), tot)
+                    if not fails and cd['base'] != base:
+                        fails = 'conditional has base %r' % (cd['base'],)
+                    if not fails:
+                        # every joint outcome above c must be an outcome of the conditional
+                        have = set(tuple(x) for x in cd['space'])
+                        for (c2, x2), p2 in joint.items():
+                            if c2 == c and p2 > 1e-9 and x2 not in have:
+                                fails = 'P(c=%s, r=%s) = %r but r is not an outcome of the conditional' % (
+                                    list(c), list(x2), p2)
+                                break
+                    if fails:
+                        break
+            return fails
+
+        fails = check_factors(oc, ocs, len(conds))
         if not fails and names and not (scal_c or scal_r):
             wn_c = [names[i] for i in crvs]
             wn_r = [names[i] for i in idx]
@@ -177,11 +388,32 @@ class C03(object):
                 fails = 'names of the conditionals: %s' % (conds[0].get_rv_names(),)
         if not fails and not case['extract'] and conds:
             # masks complementary within the union, recombination
+            union = sorted(crvs + idx)
+            # the joint over the conditioned and kept variables, from the definition (fibre sums of the source table)
+            fibre = {}
+            for o, p in rows:
+                u = tuple(o[i] for i in union)
+                fibre[u] = fibre.get(u, 0.0) + p
+
+            def check_joint(j, which):
+                oj = obs_dist(j, case, union)
+                got = {tuple(o): gen.lin_of(v, j.get_base()) for o, v in zip(oj['space'], oj['lookups'])}
+                for o, p in fibre.items():
+                    if abs(got.get(o, 0.0) - p) > 1e-9:
+                        return got, '%sjoint_from_factors gives P(%s) = %r, the fibre sum of the joint is %r' % (
+                            which, list(o), got.get(o, 0.0), p)
+                for o, p in got.items():
+                    if abs(p - fibre.get(o, 0.0)) > 1e-9:
+                        return got, '%sjoint_from_factors gives P(%s) = %r, the fibre sum of the joint is %r' % (
+                            which, list(o), p, fibre.get(o, 0.0))
+                if names and list(j.get_rv_names() or []) != [names[i] for i in union]:
+                    return got, '%sjoint_from_factors names %s, expected %s' % (which, j.get_rv_names(),
+                                                                                [names[i] for i in union])
+                return got, None
             try:
                 j = dit.joint_from_factors(cdist, conds, strict=True)
-                union = sorted(crvs + idx)
                 ref = d.marginal(union, rv_mode='indices')
-                oj, orf = gen.obs_py(j, klass), gen.obs_py(ref, klass)
+                oj, orf = obs_dist(j, case, union), obs_dist(ref, case, union)
                 got = {tuple(o): lin(v) if j.get_base() == base else gen.lin_of(v, j.get_base())
                        for o, v in zip(oj['space'], oj['lookups'])}
                 want = {tuple(o): lin(v) for o, v in zip(orf['space'], orf['lookups'])}
@@ -193,8 +425,10 @@ class C03(object):
                     fails = 'joint_from_factors has an extra outcome'
                 if not fails and names and list(j.get_rv_names() or []) != [names[i] for i in union]:
                     fails = 'joint_from_factors names %s, expected %s' % (j.get_rv_names(), [names[i] for i in union])
+                if not fails:
+                    fails = check_joint(j, '')[1]
                 # model recombination (mask: True = position of a conditioning variable)
-                if not fails and not r.mismatch:
+                if not fails and not r.mismatch and mo is not None:
                     mask = [i in crvs for i in union]
                     mt = drv.call('jff', [mask, mo[0][2], [x[2] for x in mo[1]]])
                     mtab = {tuple(o): float(Fraction(v)) for o, v in mt}
@@ -204,6 +438,30 @@ class C03(object):
                             break
             except Exception as e:  # noqa
                 fails = 'joint_from_factors raised %s: %s' % (type(e).__name__, str(e)[:150])
+            # ---- the same factors, used again: "those factors" are values; recombining them must neither consume nor
+            # alter them, and the source keeps its table
+            if not fails:
+                r.features.append('factors-reused')
+                oc2 = obs_dist(cdist, case, crvs, scal_c)
+                ocs2 = [obs_dist(x, case, idx, scal_r) for x in conds]
+                again = check_factors(oc2, ocs2, len(conds))
+                if again:
+                    fails = 'after joint_from_factors(cdist, conds) the same factors no longer factorise the joint: ' + again
+                elif not same_obs(oc2, oc):
+                    fails = 'joint_from_factors changed the marginal it was given: %s -> %s' % (oc['tab'], oc2['tab'])
+                elif not same_obs(ocs2, ocs):
+                    k = [a for a in range(len(ocs)) if not same_obs(ocs[a], ocs2[a])][0]
+                    fails = 'joint_from_factors changed the conditional #%d it was given: %s -> %s' % (
+                        k, ocs[k]['tab'], ocs2[k]['tab'])
+                elif not same_obs(obs_dist(d, case, range(n)), src):
+                    fails = 'joint_from_factors changed the source distribution'
+                else:
+                    try:
+                        j2 = dit.joint_from_factors(cdist, conds, strict=True)
+                        fails = check_joint(j2, 'second ')[1]
+                    except Exception as e:  # noqa
+                        fails = 'second joint_from_factors on the same factors raised %s: %s' % (type(e).__name__,
+                                                                                                  str(e)[:150])
         r.oracle_fail = fails
         return r
 
